@@ -328,7 +328,9 @@ class FullJoin(Join):
                 cls.reference_dataset.get_identifiers_names()
             ):
                 raise SemanticError("1-1-13-13", op=cls.op)
-            if op.get_identifiers_names() != cls.reference_dataset.get_identifiers_names():
+            if set(op.get_identifiers_names()) != set(
+                cls.reference_dataset.get_identifiers_names()
+            ):
                 raise SemanticError("1-1-13-12", op=cls.op)
 
 
